@@ -21,7 +21,7 @@ var Metas = map[string]*Meta{
 	"C06": {
 		Level: "exploration",
 		Rule: "A run draws a format, a size class (tiny<=14 B, small, medium 4-10 KiB, large 70-200 KiB), an input kind (generated well-formed text, mutated, raw noise over the format's delimiters) and compares, against the one-shot in-memory decode: " +
-			"every partition of inputs <= 14 bytes x both EOF placements, every single cut (<= 400 B), every pair of cuts (<= 60 B), 5-8 sampled delivery plans (1-byte, uniform, geometric, delimiter-hunting, buffer-boundary, whole; stalls; EOF with data); the CRLF rendering of well-formed text under three plans; File on plain/.gz/multi-member .gz copies; unopenable paths. " +
+			"(line lengths next to multiples of the 4096-byte bufio buffer and to 64 KiB are generated on purpose; mutations include byte order marks, NUL and bytes >= 0x80) every partition of inputs <= 14 bytes x both EOF placements, every single cut (<= 400 B), every pair of cuts (<= 60 B), 5-8 sampled delivery plans (1-byte, uniform, geometric, delimiter-hunting, buffer-boundary, whole; stalls; EOF with data); the CRLF rendering of well-formed text under three plans; File on plain/.gz/multi-member .gz copies; unopenable paths. " +
 			"distinct_nontrivial counts distinct (format, input, delivery sequence actually executed | storage configuration) triples for sampled plans and single cuts (exhaustively enumerated partitions and pairs are counted separately under probes.exhaustive/*; a case is non-trivial iff the reference decode did not panic).",
 		Assumptions: []string{
 			"the one-shot decode through bytes.Reader is the reference; the check is differential and never asserts what the right decode is (C01-C05, C11 are not decided here)",
@@ -50,13 +50,15 @@ var Metas = map[string]*Meta{
 	},
 	"C16": {
 		Level: "exploration",
-		Rule: "A run builds one index from generated (starts, ends) -- 0-12 intervals incl. start==end, start>end, duplicates, touching, nested, negative and math.MinInt/MaxInt coordinates -- shared by 1-4 simulated callers with up to 8 operations each (At at breakpoints, breakpoint+-1, below min, above max, random; scribbling over a previously returned slice in three modes; re-queries), once interleaved at whole-operation granularity on the real package and twice at statement granularity on the instrumented scratch copy (real goroutines, exactly one runnable, yield before every statement; uniform / sticky / PCT-style choice from the run PRNG); every At answer is compared with a brute-force scan. 3% of cases hand NewIndex unequal lengths and expect the panic. " +
+		Rule: "A run builds one index from generated (starts, ends) -- 0-12 intervals incl. start==end, start>end, duplicates, touching, nested, negative and math.MinInt/MaxInt coordinates -- shared by 1-4 simulated callers with up to 8 operations each (At at breakpoints, breakpoint+-1, below min, above max, random; scribbling over a previously returned slice in three modes; re-queries), once interleaved at whole-operation granularity on the real package and twice at statement granularity on the instrumented scratch copy (real goroutines, exactly one runnable, yield before every statement; uniform / sticky / PCT-style choice from the run PRNG); every At answer is compared with a brute-force scan; 6% of cases pile 17-130 intervals on the same few positions (thresholds such as 16/32/64 members). In the instrumented copy package sort is replaced by a version that yields after every element move, because a sort of shared data is not atomic in reality. 3% of cases hand NewIndex unequal lengths and expect the panic. " +
 			"The first 17 runs are the fixed exhaustive sweep: all 69 905 sets of <= 4 intervals over coordinates 0..3, positions -1..4, queried, scribbled, queried again. distinct_nontrivial counts distinct (index, callers' programs, executed schedule) triples; evaluations counts cases executed.",
 		Assumptions: []string{
 			"the brute-force scan {x | starts[x] <= i < ends[x]} ascending is the model; nil and empty results are equal",
 			"the API has no mutating operation, so linearizability degenerates to 'every At in every interleaving equals the model'; porcupine would add nothing",
 			"statement granularity: a yield before every statement (not inside expressions); sync primitives are replaced by cooperative shims in the scratch copy; packages using goroutines or channels fall back to operation granularity (reported)",
 			"schedules are sampled, not enumerated; the race detector is deliberately not the oracle (real-thread runs do not replay, benign races change no answer)",
+			"atomicity model: a statement of the instrumented package is atomic, calls into uninstrumented packages other than sort and sync are atomic too (package slices is not modelled); torn multi-word reads/writes under true parallelism are outside the model",
+			"a violation that depends on package-level state carried from case to case is replayed by re-running the finding shard's run sequence (deterministic), since the case alone does not reproduce it",
 		},
 		Components: map[string]any{"real": []string{"biostuff regions (operation-granular phase and the sweep: the package itself, built from /repo's working tree)"},
 			"instrumented_copy":     []string{"regions/*.go of the working tree with simrt.Yield inserted before every statement and sync replaced by cooperative shims (statement-granular phase); nothing else changed"},
@@ -66,8 +68,8 @@ var Metas = map[string]*Meta{
 	},
 	"C18": {
 		Level: "fault_enumeration",
-		Rule: "A run draws one case: an iterator (Reader of a format under a delivery plan, in 60% with an injected read fault; File on plain / .gz / torn .gz / directory / missing path; PreOrder/PostOrder of a generated tree; trie ForEach with simulator-chosen child order; CanonicalSubsequences) and its environment, records the uninterrupted run x_0..x_{N-1}, then stops at EVERY position j in [0,N) in each of three consumer styles (direct call with a counting yield, for-range + break, iter.Pull + stop). " +
-			"distinct_nontrivial counts distinct cases with N >= 1 (by content hash of the case); evaluations counts iterator executions (1 + 3N per case).",
+		Rule: "A run draws one case: an iterator (Reader of a format under a delivery plan, in 60% with an injected read fault; File on plain / .gz / torn .gz / directory / missing path; PreOrder/PostOrder of a generated tree; trie ForEach with simulator-chosen child order; CanonicalSubsequences) and its environment, records the uninterrupted run x_0..x_{N-1}, then stops at EVERY position j in [0,N) in each of three consumer styles (direct call with a counting yield, for-range + break, iter.Pull + stop). Iterators that can be walked again (File, traversals, ForEach, CanonicalSubsequences) use ONE iterator value for all runs of the case and are run to the end again after every stop (a stop must leave nothing behind). 35% of the injected read faults are transient (one error, then the rest of the data arrives); error values come from the same palette as in C07. " +
+			"distinct_nontrivial counts distinct cases with N >= 1 (by content hash of the case); evaluations counts iterator executions (1 + 3N per case, 1 + 6N for re-walkable iterators).",
 		Assumptions: []string{
 			"the uninterrupted run in the same environment is the reference for 'leading items'",
 			"cases whose uninterrupted run hits the step cap (an iterator that never ends under a persistent failure) or panics are skipped and counted: termination is C07's clause, parser totality is C11's",
@@ -80,15 +82,16 @@ var Metas = map[string]*Meta{
 	},
 	"C07": {
 		Level: "fault_enumeration",
-		Rule: "A run draws one case from the run PRNG: (read) a format and a generated well-formed text whose fault-free decode is verified error-free, then EVERY fault offset 0..len x {error once then EOF, error forever} x {error alone, error with the last chunk} under one of three delivery plans; " +
-			"(write) a generated record, then EVERY byte offset of its output x {sticky, transient} x {partial, nothing accepted}; (file) a directory in place of the file and the .gz form torn at offsets strictly before the 8-byte trailer. " +
+		Rule: "A run draws one case from the run PRNG: (read) a format and a generated well-formed text whose fault-free decode is verified error-free, then EVERY fault offset 0..len x {error once then EOF, error forever} x {error alone, error with the last chunk} under one of three delivery plans, the injected error value drawn from a palette (plain, io.ErrUnexpectedEOF, a timeout, closed pipe, *fs.PathError, io.ErrNoProgress); " +
+			"(write) a generated record (6% with 4-9 KiB of payload, in the thorough tier also 64-130 KiB), then EVERY byte offset of its output (beyond 3000 bytes: all offsets near 4 KiB multiples, the first and last 300, 600 random) x {sticky, transient} x {partial, nothing accepted}; (file) a directory in place of the file and the .gz form torn at offsets strictly before the 8-byte trailer. " +
 			"distinct_nontrivial counts distinct (format, input bytes, mode/plan style) cases whose enumeration ran (a case is non-trivial iff its reference decode was clean, so that faults were actually injected); evaluations counts executions of the code under test.",
 		Assumptions: []string{
 			"'well-formed' is established by the fault-free one-shot decode being error-free (inputs failing this are skipped and counted)",
 			"error items are compared by position and non-nil-ness only, never by wording or type",
 			"bounded liveness B=1000 further Read calls / items after the fault began stands for 'ends after finitely many items'",
 			"gzip truncation only at offsets <= len-9 of a single-member file (inside the trailer a clean end may be legitimate)",
-			"input dimension is sampled; fault offset dimension is enumerated completely per input (stratified for 4-10 KiB inputs in the quick tier)",
+			"input dimension is sampled; fault offset dimension is enumerated completely per input up to ~1 KiB; for 4-10 KiB inputs a stratum (all offsets within 3 of a line boundary or of a 4096 multiple plus 200 random, thinned to 350 quick / 1000 thorough); 70-400 KiB inputs (thorough only) get about 300 sampled offsets",
+			"EINTR is not in the error palette: a reader may legitimately retry it",
 		},
 		Components: map[string]any{"real": realCommon, "simulated_environment": []string{"io.Reader (sim.Stream: delivery plan + fault)", "io.Writer (sim.Sink: acceptance plan)", "consumer that keeps iterating past errors", "storage: scratch directory on the real file system (directory-as-path, torn .gz)"}, "stubbed": []string{}},
 		Runs:       map[string]int{"quick": 10000, "thorough": 200000},
